@@ -40,7 +40,9 @@ INFO = {
     ],
 }
 
-LAMS = ["1/1000", "1/100", "1/10", "1/2", "1", "2", "10"]
+LAMS = ["1/1000", "1/500", "1/200", "1/100", "1/50", "1/20", "1/10", "3/10", "1/2", "1", "2", "5", "10"]
+LOW_LAMS = ["1/1000", "1/800", "1/500", "1/400", "1/300", "1/250", "1/200", "3/500", "7/1000", "1/125", "9/1000"]   # [1e-3, 1e-2)
+MID_LAMS = ["1/100", "1/80", "1/50", "3/100", "1/20", "7/100", "1/10"]
 mpmath.mp.dps = 60
 
 
@@ -255,14 +257,123 @@ def fam_repr(rng, variant):
     return [base(rng, m, "repr:repeat", repeat=True)]
 
 
+def fam_neartie(rng, variant):
+    """action values whose gaps are of the order of the entropy weight (the softmax is neither saturated nor
+    flat there): in 1-2 states action 1 is action 0 with a probability mass delta = c*weight (c in 1/2..5) moved
+    between two successors, same rewards.  variants: scalar weight in [1e-3,1e-2), in [1e-2,1e-1], per-state
+    vector mixing low and ordinary weights"""
+    m = gen_mdp(rng, nS=rng.randint(3, 6), nA=rng.choice([2, 3, 4]))
+    nS, nA = m["nS"], m["nA"]
+    m["R"] = [[[str(rng.randint(-3, 3)) for _ in range(nS)] for _ in range(nA)] for _ in range(nS)]
+    if variant == "low":
+        lam, style = rng.choice(LOW_LAMS), rng.choice(["float", "tensor1", "npfloat"])
+    elif variant == "mid":
+        lam, style = rng.choice(MID_LAMS), rng.choice(["float", "tensor1"])
+    else:
+        lam = [rng.choice(LOW_LAMS if rng.random() < .6 else LAMS) for _ in range(nS)]
+        lam[rng.randrange(nS)] = rng.choice(LOW_LAMS)
+        style = "per_state"
+    for s in rng.sample(range(nS), rng.randint(1, 2)):
+        l = F(lam[s]) if isinstance(lam, list) else F(lam)
+        j, k = rng.sample(range(nS), 2)
+        delta = min(l * rng.choice([F(1, 2), F(1), F(2), F(5)]), F(1, 8))
+        row0 = [F(0)] * nS
+        row0[j], row0[k] = F(1, 2), F(1, 2)
+        row1 = list(row0)
+        row1[j], row1[k] = row0[j] - delta, row0[k] + delta
+        m["T"][s][0], m["T"][s][1] = [str(x) for x in row0], [str(x) for x in row1]
+        m["R"][s][1] = list(m["R"][s][0])
+        if m["R"][s][0][j] == m["R"][s][0][k]:
+            m["R"][s][0][k] = m["R"][s][1][k] = str(int(m["R"][s][0][j]) + rng.choice([-2, -1, 1, 2]))
+    return [base(rng, m, "neartie:" + variant, lam=lam, lam_style=style)]
+
+
+def sim_history(case, max_iter=60):
+    """reference run of the loop (numpy float64, same formulas and isclose band) used ONLY to select inputs by
+    their improvement history: -> (list over iterations of the per-state 'row unchanged' flags, converged)"""
+    import numpy as np
+    T, R, p0, lam, g = full_arrays(case)
+    T, R, p0 = np.array(T, dtype=float), np.array(R, dtype=float), np.array(p0, dtype=float)
+    lam, g = np.array([float(x) for x in lam]), float(g)
+    nS, nA = T.shape[0], T.shape[1]
+    tiny = np.finfo(np.float64).tiny
+    clamp = case["force_nonzero"]
+    pi = np.full((nS, nA), 1.0 / nA)
+    hist = []
+    for _ in range(max_iter):
+        with np.errstate(all="ignore"):
+            ent = np.nansum(np.log(pi / p0) * pi, axis=1)
+        srf = np.einsum("san,san,sa->s", R, T, pi)
+        mp = (pi[:, :, None] * T).sum(1)
+        v = np.linalg.solve(np.eye(nS) - g * mp, srf - lam * ent)
+        q = (T * (R + g * v[None, None, :])).sum(-1)
+        z = q / lam[:, None] + np.log(p0)
+        z = z - z.max(-1, keepdims=True)
+        new = np.exp(z)
+        new /= new.sum(-1, keepdims=True)
+        close = (np.abs(pi - new) <= 1e-8 + 1e-5 * np.abs(new)).all(-1)
+        hist.append([bool(x) for x in close])
+        if close.all():
+            return hist, True
+        pi = np.maximum(new, tiny) if clamp else new
+    return hist, False
+
+
+def history_score(hist):
+    """(every state has sat still in some step before the last one, number of pause-then-move events)"""
+    n = len(hist[0])
+    seen, turn = [False] * n, False
+    for c in hist[:-1]:
+        seen = [a or b for a, b in zip(seen, c)]
+        turn = turn or all(seen)
+    pauses = sum(1 for s in range(n) for t in range(len(hist) - 1)
+                 if hist[t][s] and not all(h[s] for h in hist[t + 1:]))
+    return turn, pauses
+
+
+def fam_history(rng, variant):
+    """deterministic transitions, integer rewards, low entropy weight: exact ties under the uniform start and
+    near-greedy policies that flip one state at a time.  Candidates are drawn until the reference history has
+    >= 3 improvement steps and, variant 'turns': every state sits still in some step while another one still
+    moves (states settle in turn); variant 'pause': at least one state pauses and moves again."""
+    best, best_key = None, None
+    for _ in range(600):
+        nS, nA = rng.randint(3, 6), rng.choice([2, 2, 3])
+        T = [[["0"] * nS for _ in range(nA)] for _ in range(nS)]
+        R = [[[None] * nS for _ in range(nA)] for _ in range(nS)]
+        for s in range(nS):
+            for a in range(nA):
+                T[s][a][rng.randrange(nS)] = "1"
+                R[s][a] = [str(rng.randint(-3, 3))] * nS
+        m = {"nS": nS, "nA": nA, "T": T, "R": R, "gamma": rng.choice(["1/2", "9/10"])}
+        if rng.random() < .25:
+            lam, style = [rng.choice(LOW_LAMS + MID_LAMS) for _ in range(nS)], "per_state"
+        else:
+            lam, style = rng.choice(LOW_LAMS + MID_LAMS), rng.choice(["float", "float", "tensor1"])
+        c = base(rng, m, "history:" + variant, lam=lam, lam_style=style,
+                 pi0=None if rng.random() < .7 else [[str(F(p, 16)) for p in split(rng, nA, 16)]])
+        hist, conv = sim_history(c)
+        if not conv or len(hist) < 3:
+            continue
+        turn, pauses = history_score(hist)
+        key = (turn if variant == "turns" else pauses > 0, pauses, len(hist))
+        if best is None or key > best_key:
+            best, best_key = c, key
+        if key[0]:
+            break
+    best["history"] = {"steps": best_key[2], "pauses": best_key[1], "selected": bool(best_key[0])}
+    return [best]
+
+
 SCHEDULE = (
     [("general",)] * 4 + [("ladder",)] + [("planner", v) for v in ("perm", "str", "tuple", "start", "prior", "default_cap", "cap1", "reuse")]
     + [("general",)] * 3
     + [("boundary", v) for v in ("gamma0_int", "gamma0_float", "gamma_near_1", "tiny_prob", "prior_edge", "one_state", "reward_1e3", "reward_1e5")]
-    + [("general",)] * 3 + [("init", "onehot"), ("init", "random"), ("cap", 1), ("cap", 2), ("repr", "views"), ("repr", "repeat")]
-    + [("general",)] * 2)
+    + [("neartie", "low"), ("history", "turns"), ("neartie", "vector"), ("history", "turns"), ("neartie", "low"), ("history", "pause"), ("neartie", "mid")]
+    + [("general",)] * 2 + [("init", "onehot"), ("init", "random"), ("cap", 1), ("cap", 2), ("repr", "views"), ("repr", "repeat")]
+    + [("general",)])
 FAMS = {"general": fam_general, "ladder": fam_ladder, "planner": fam_planner, "boundary": fam_boundary,
-        "init": fam_init, "cap": fam_cap, "repr": fam_repr}
+        "init": fam_init, "cap": fam_cap, "repr": fam_repr, "neartie": fam_neartie, "history": fam_history}
 
 
 def gen_cases(rng, ncases):
@@ -553,7 +664,7 @@ def exact_qstar(T, R, g):
 # ---------------------------------------------------------------------------
 def run(ctx):
     tier = ctx.tier
-    ncases = 40 if tier == "quick" else 400
+    ncases = 45 if tier == "quick" else 450
     if ctx.replay_case:
         cases = [ctx.replay_case["detail"]["case"]]
     else:
